@@ -1,13 +1,12 @@
 import Pds.Proofs.KernelTie.Ctor
-import Pds.Proofs.KernelTie.HllAdd
 /-!
-# C17 — tie by translation: register index and rank of `HyperLogLog::add_hashed`
--/
-namespace Pds.Tie.C17
-open Pds Pds.KernelTie Pds.Generated.Kernels
+# C20 — tie by translation: the constructor the deserialiser ends in
 
-theorem add_hashed_translated (b h : Nat) : hll_add_hashed_jp b h = (h % 2 ^ b, Hll.rank b h) :=
-  hll_add_hashed_eq b h
+`visit_map` is modelled by hand at the level of documents (tied by the correspondence on generated documents); its last
+step is `HyperLogLog::with_registers_and_hash`, whose two assertions are the translated ones.
+-/
+namespace Pds.Tie.C20
+open Pds Pds.KernelTie Pds.Generated.Kernels
 
 /-- `HyperLogLog::with_registers_and_hash` as translated (both assertions) accepts exactly what the model's
 `withRegisters` accepts and keeps the registers -/
@@ -17,4 +16,4 @@ theorem with_registers_translated (b : Nat) (regs : Array Nat) :
       | none => Flow.panic
       | some s => Flow.ret s.regs.toList := hll_with_registers_eq b regs
 
-end Pds.Tie.C17
+end Pds.Tie.C20
